@@ -88,6 +88,8 @@ def _raises(kind, lbl, hc):
         return False
     if mode == "once":
         return hc in p["ks"]
+    if mode == "act":
+        return bool(p.get("ar")) and hc == p["ak"]
     return kind in p["kinds"] and lbl in p["nodes"]
 
 
@@ -96,7 +98,10 @@ def _act(hc):
     p = Ctx.plan
     nest = Ctx.nest = {"lo": hc + 1, "hi": hc, "exc": "Nil", "par": {}, "ch": {}}
     try:
-        Ctx.objs[p["am"]].parent = None if p["av"] == "Nil" else Ctx.objs[p["av"]]
+        if p.get("akind", "sp") == "dc":
+            del Ctx.objs[p["am"]].children
+        else:
+            Ctx.objs[p["am"]].parent = None if p["av"] == "Nil" else Ctx.objs[p["av"]]
     except Exception as e:
         nest["exc"] = exc_token(e)
         raise
@@ -118,10 +123,10 @@ def _make_hook(kind):
         if Ctx.snap_hooks:
             ev["par"], ev["ch"] = snapshot()
         Ctx.log.append(ev)
+        if Ctx.plan["mode"] == "act" and Ctx.plan["ak"] == hc:
+            _act(hc)        # (an exception of the nested call propagates; otherwise the hook raises if the plan says so)
         if r:
             raise HookFault(hc)
-        if Ctx.plan["mode"] == "act" and Ctx.plan["ak"] == hc:
-            _act(hc)
 
     hook.__name__ = "_" + kind
     return hook
